@@ -84,6 +84,7 @@ type PureFunc struct {
 	Rec     bool          // declared `rec`: uninterpreted + unfolding axiom
 	Opaque  bool
 	Abstract bool         // uninterpreted spec function
+	GhostFun bool         // ghost function-valued state (a heap family only contracts mention)
 	HasDefault bool       // virtual functions: body is the value for dynamic types without a definition
 	Virtual  bool         // spec-level interface method: value given by `specmethod` definitions per dynamic type
 	RecvType string       // method definitions: receiver type text
@@ -114,7 +115,7 @@ type PkgContracts struct {
 	clauseSeq int
 }
 
-var kwRe = regexp.MustCompile(`^(import|pure|rec|opaque|abstract|virtual|specmethod|method|callee|closure|ghost_entry|ghost_return|include|kindprops|func|assume|interface|functype|captures|axiom|globalinv|requires|ensures|assigns|decreases|loop|invariant|lemma|props|ghost|let|flag|refines|var)\b`)
+var kwRe = regexp.MustCompile(`^(import|pure|rec|opaque|abstract|virtual|ghostfun|specmethod|method|callee|closure|ghost_entry|ghost_return|include|kindprops|func|assume|interface|functype|captures|axiom|globalinv|requires|ensures|assigns|decreases|loop|invariant|lemma|props|ghost|let|flag|refines|var)\b`)
 
 func parseContractFile(path, pkgPath string) (*PkgContracts, error) {
 	b, err := os.ReadFile(path)
@@ -247,6 +248,17 @@ func parseContractFile(path, pkgPath string) (*PkgContracts, error) {
 				pf.HasDefault = true
 			}
 			pc.Synth += fmt.Sprintf("//line %s:%d\n%s { %s }\n", path, l.line, head, body)
+			pc.Pures = append(pc.Pures, pf)
+			cur, curLoop = nil, nil
+		case "ghostfun":
+			// ghostfun Name(params) T : function-valued ghost state, versioned like the heap
+			head := "func " + strings.TrimSpace(rest)
+			nm := regexp.MustCompile(`^func\s+([A-Za-z_][A-Za-z_0-9]*)`).FindStringSubmatch(head)
+			if nm == nil {
+				return nil, fmt.Errorf("%s:%d: bad ghostfun", path, l.line)
+			}
+			pf := &PureFunc{PkgPath: pkgPath, File: path, Line: l.line, Name: nm[1], FnName: nm[1], GhostFun: true}
+			pc.Synth += fmt.Sprintf("//line %s:%d\n%s { panic(0) }\n", path, l.line, head)
 			pc.Pures = append(pc.Pures, pf)
 			cur, curLoop = nil, nil
 		case "abstract":
